@@ -215,3 +215,67 @@ func VerifH_C14_atomic() {
 		}
 	}
 }
+
+// VerifH_C14_atomic_v1: the v1 submission path: all-or-nothing, 'known'
+// exactly when everything was pooled, and a rejection never removes what the
+// pool held before.
+//
+//verif:harness prop=C14 tier=quick replay=interp z3timeout=400 require=accepted,rejected,known bounds="pool of 1..2 v1 (+<=1 v2) transactions; submitted set of 1..3 v1 transactions each fresh (symbolic validity) / already pooled / spending an input a pooled transaction spends"
+func VerifH_C14_atomic_v1() {
+	w := newPoolWorld(2, 1)
+	if len(w.v1) == 0 {
+		vapi.Assume(false)
+	}
+	n := vapi.Int("set", 1, 3)
+	var set []types.Transaction
+	allPooled := true
+	for i := 0; i < n; i++ {
+		switch vapi.Int("kind", 0, 2) {
+		case 0: // fresh, validity symbolic
+			t := newV1(w.tag(), w.parent())
+			absTxBad(v1tag(t))
+			set = append(set, t)
+			allPooled = false
+		case 1: // already pooled
+			set = append(set, w.v1[vapi.Int("which", 0, len(w.v1)-1)])
+		case 2: // valid against the tip but conflicting with the pool
+			p := w.v1[0].SiacoinInputs[0].ParentID[0]
+			set = append(set, newV1(w.tag(), p))
+			allPooled = false
+		}
+	}
+	pre1, pre2 := v1ids(w.c.m.PoolTransactions()), v2ids(w.c.m.V2PoolTransactions())
+	setIDs := v1ids(set)
+	known, err := w.c.m.AddPoolTransactions(set)
+	post1, post2 := v1ids(w.c.m.PoolTransactions()), v2ids(w.c.m.V2PoolTransactions())
+	vapi.Assert("atomic-v1.v2-untouched", sameIDs(pre2, post2))
+	if err != nil {
+		vapi.Reach("rejected")
+		vapi.Assert("atomic-v1.error-changes-nothing", sameIDs(pre1, post1))
+		vapi.Assert("atomic-v1.error-not-known", !known)
+		for _, id := range pre1 {
+			_, ok := w.c.m.PoolTransaction(id)
+			vapi.Assert("atomic-v1.pooled-before-still-found", ok)
+		}
+	} else if known {
+		vapi.Reach("known")
+		vapi.Assert("atomic-v1.known-iff-all-pooled", allPooled)
+		vapi.Assert("atomic-v1.known-adds-nothing", sameIDs(pre1, post1))
+	} else {
+		vapi.Reach("accepted")
+		vapi.Assert("atomic-v1.known-iff-all-pooled", !allPooled)
+		want := append([]types.TransactionID{}, pre1...)
+		for _, id := range setIDs {
+			dup := false
+			for _, x := range want {
+				if x == id {
+					dup = true
+				}
+			}
+			if !dup {
+				want = append(want, id)
+			}
+		}
+		vapi.Assert("atomic-v1.accepted-appends-all", sameIDs(want, post1))
+	}
+}
